@@ -47,9 +47,15 @@ mod_b.
 rel_b.
 marker_a
 name_
+import mod_a as top_a
+top_a.
+import mod_
 '''
-QUERIES = [['complete', 6, 11], ['complete', 7, 6], ['complete', 8, 6], ['infer', 9, 8], ['goto', 9, 8], ['complete', 10, 5],
-           ['infer', 1, 14], ['goto', 2, 20], ['help', 4, 20]]
+# the import-name completion comes first: it is the query that does NOT put the buffer's package directories on the
+# search path (imports.py: add_init_paths=not is_completion), so a fresh process answers it from the files alone
+QUERIES = [['complete', 13, 11], ['complete', 6, 11], ['complete', 7, 6], ['complete', 8, 6], ['infer', 9, 8], ['goto', 9, 8], ['complete', 10, 5],
+           ['infer', 1, 14], ['goto', 2, 20], ['help', 4, 20],
+           ['complete', 12, 6], ['infer', 11, 19]]
 
 
 def content(ver, size_pad=0):
@@ -131,6 +137,12 @@ class Project:
                 return None
             self.ver += 1
             self.write(d + '/__init__.py', content(self.ver))
+        elif kind == 'toggle_pkg_init':      # the buffer's own directory: regular package <-> plain directory
+            init = os.path.join(self.pkg, '__init__.py')
+            if os.path.exists(init):
+                os.unlink(init)
+            else:
+                self.write('pkgx/__init__.py', '')
         elif kind == 'add_stub':
             if not self.exists(f):
                 return None
@@ -146,7 +158,7 @@ class Project:
 
 
 KINDS = ['write', 'write', 'overwrite_same_size', 'delete', 'rename', 'to_package', 'to_module', 'remove_init', 'add_init',
-         'add_stub', 'remove_stub']
+         'add_stub', 'remove_stub', 'toggle_pkg_init', 'toggle_pkg_init']
 
 
 class Server:
@@ -173,7 +185,10 @@ class Server:
 
 def run_history(arg):
     """One history in its own orchestrator (this function runs in a forked worker that never parses)."""
-    workdir, idx, seed, nsteps = arg
+    workdir, idx, seed, nsteps = arg[:4]
+    script = arg[4] if len(arg) > 4 else None         # [(kind, mod)]: a model behaviour instead of random mutations
+    if script is not None:
+        nsteps = len(script)
     from harness import cache_worker as cw
     rng = random.Random(seed)
     root = os.path.join(workdir, 'h%d' % idx)
@@ -187,7 +202,18 @@ def run_history(arg):
     events, steps = [], []
     try:
         for step in range(nsteps + 1):
-            if step > 0:
+            if step > 0 and script is not None:
+                kind, mod = script[step - 1]
+                if kind == 'newproc':
+                    A.close()
+                    A = Server()
+                    continue
+                m = pr.mutate(kind, mod, rng)
+                if not m:
+                    continue
+                events.append({'ev': 'Mutate', 'kind': m['kind']})
+                steps.append(m)
+            elif step > 0:
                 m = None
                 for _ in range(10):
                     m = pr.mutate(rng.choice(KINDS), rng.choice(['mod_a', 'mod_b']), rng)
@@ -230,6 +256,37 @@ def run_history(arg):
         A.close()
     shutil.rmtree(root, True)
     return {'events': [fullev(e) for e in events], 'steps': steps}
+
+
+def model_scripts(stdout):
+    """Counterexample behaviours of FileCache.tla (-continue) as mutation scripts; queries are asked after every
+    step anyway, so Resolve/ResolveTop/Tick steps only separate the mutations."""
+    import re
+    out, seen = [], set()
+    mods = {'m1': 'mod_a', 'm2': 'mod_b'}
+    for block in stdout.split('Error: The behavior up to this point is:')[1:]:
+        sc = []
+        for m in re.finditer(r'State (\d+): <([^>]*)>', block):
+            label = m.group(2).split(' line ')[0]
+            a = re.match(r'(\w+)(?:\((.*)\))?$', label)
+            if not a:
+                continue
+            name, args = a.group(1), [x.strip().strip('"') for x in (a.group(2) or '').split(',') if x.strip()]
+            if name == 'Write':
+                sc.append(('write', mods[args[0]]))
+            elif name == 'Delete':
+                sc.append(('delete', mods[args[0]]))
+            elif name == 'Rename':
+                sc.append(('rename', mods[args[1]]))
+            elif name == 'ToggleInit':
+                sc.append(('toggle_pkg_init', 'mod_a'))
+            elif name == 'NewProcess' and args[0] == '1':
+                sc.append(('newproc', ''))
+        key = tuple(sc)
+        if sc and key not in seen:
+            seen.add(key)
+            out.append(sc)
+    return out
 
 
 def fullev(e):
@@ -290,6 +347,7 @@ CONSTANTS
   MaxVer = %d
   MaxClock = %d
   Assume = %s
+  ProjectKeepsScriptPaths = %s
 INVARIANT Seen
 CHECK_DEADLOCK FALSE
 '''
@@ -298,10 +356,10 @@ CHECK_DEADLOCK FALSE
 def run(ctx):
     quick = ctx.quick
 
-    def cfg(name, ver, clock, assume):
+    def cfg(name, ver, clock, assume, keeps='FALSE'):
         p = os.path.join(ctx.tmp, name)
         with open(p, 'w') as f:
-            f.write(CFG % (ver, clock, assume))
+            f.write(CFG % (ver, clock, assume, keeps))
         return p
     res = run_tlc('FileCache', cfg('assume.cfg', 2 if quick else 3, 3, 'TRUE'), workers=16, timeout=3000)
     ctx.add_tlc(res, 'Seen under MtimeMonotone')
@@ -316,6 +374,11 @@ def run(ctx):
     if res.violated != 'Seen':
         raise MachineryError('without MtimeMonotone the model should admit stale answers')
     ctx.coverage['assumption_free_counterexample'] = [s['action'] for s in res.trace]
+    res = run_tlc('FileCache', cfg('keeps.cfg', 2, 3, 'TRUE', keeps='TRUE'), workers=8, timeout=900)
+    ctx.add_tlc(res, 'what-if: the Project object keeps the search paths of earlier Scripts (must fail)')
+    if res.violated != 'Seen':
+        raise MachineryError('what-if ProjectKeepsScriptPaths did not violate Seen: model insensitive')
+    ctx.coverage['whatif_project_keeps_script_paths'] = [s['action'] for s in res.trace]
     # ---- dependency findings replayed with os.utime
     work = ctx.sub('c09')
     st = jutil.pmap(stale_scenarios, [work], procs=1)
@@ -328,6 +391,19 @@ def run(ctx):
     # ---- random histories under the assumption
     nh, nsteps = (28, 8) if quick else (200, 20)
     jobs = [(work, i, ctx.seed * 7919 + i, ctx.rng.randrange(3, nsteps + 1)) for i in range(nh)]
+    # ---- behaviours of the model: every counterexample of the what-if is a history that tells the code from the
+    # deviating design; they are executed on a real project (a query after every step, as in the random histories)
+    res = run_tlc('FileCache', cfg('keeps_enum.cfg', 1, 3, 'TRUE', keeps='TRUE'), workers=1, timeout=900, extra=('-continue',))
+    ctx.add_tlc(res, 'what-if enumeration: Project keeps script paths (all counterexamples)')
+    scripts = model_scripts(res.stdout)
+    if len(scripts) < 10:
+        raise MachineryError('what-if enumeration produced only %d behaviours' % len(scripts))
+    ctx.coverage['whatif_counterexample_behaviours'] = len(scripts)
+    ctx.rng.shuffle(scripts)
+    nmodel = 14 if quick else 150
+    for k, sc in enumerate(scripts[:nmodel]):
+        jobs.append((work, nh + k, ctx.seed * 7919 + nh + k, len(sc), sc))
+    ctx.coverage['model_behaviours_replayed'] = len(scripts[:nmodel])
     ctx.log('%d mutation histories' % nh)
     results = jutil.pmap(run_history, jobs, procs=12, chunksize=1)
     jutil.check_worker_errors(results)
